@@ -412,6 +412,9 @@ def count_and_time_step(repo, rep):
 
 
 def run(repo, rep, tier):
+    rep.rule("R-C19-11", "no tracking threshold is defaulted with `p or <non-zero constant>`: a tolerance of 0 (nothing may be continued) is a legitimate argument")
+    from .round7 import falsy_zero_defaulting
+    falsy_zero_defaulting(repo, rep, "R-C19-11", ("wavespectra.partition.tracking", "wavespectra.partition.partition"), floor=15)
     rep.rule("R-C19-10", "(shared) the tracking thresholds reach the kernel in the slots of the parameters they are named after; operands are aligned by label")
     from .shared import ufunc_forwarding
     rep.floor("R-C19-10", "apply_ufunc sites of the tracker", ufunc_forwarding(repo, rep, "R-C19-10", ("wavespectra.partition.tracking",)), 1)
